@@ -34,7 +34,26 @@ func (g *c02gen) step(k int) types.MalType {
 	K := Kw
 	lit := []types.MalType{1, 2, "s", K("k"), nil}[g.r.Intn(5)]
 	key := g.r.Pick([]string{K("a"), K("b"), K("c")})
-	switch g.r.Intn(30) {
+	switch g.r.Intn(37) {
+	case 30:
+		g.hist["literal-nested-vector"]++
+		return V(V(1, 2), V(3, 4), types.HashMap{Val: map[string]types.MalType{K("a"): V(5, 6)}})
+	case 31, 32: // paths of two and three steps through vectors and maps: only the RESULT has the new leaf
+		g.hist["update-in/assoc-in-deep-path"]++
+		path := []types.MalType{V(g.r.Intn(2), g.r.Intn(2)), V(2, K("a"), g.r.Intn(2)), V(key, g.r.Intn(2)), V(g.r.Intn(3), key)}[g.r.Intn(4)]
+		if g.r.Bool() {
+			return Call("update-in", pick(), path, Call("fn", V(S("x")), lit))
+		}
+		return Call("assoc-in", pick(), path, lit)
+	case 33: // the EMPTY set, built every way: extending it must leave it empty
+		g.hist["empty-set"]++
+		return []types.MalType{Call("hash-set"), types.Set{Val: map[string]struct{}{}}, Call("set", V()), Call("dissoc", types.Set{Val: map[string]struct{}{K("a"): {}}}, K("a")), Call("set", nil)}[g.r.Intn(5)]
+	case 34, 35:
+		g.hist["set-extend"]++
+		return Call(g.r.Pick([]string{"conj", "assoc", "dissoc"}), pick(), key)
+	case 36: // a set literal in FUNCTION CODE is a value too: every call sees it as written
+		g.hist["set-literal-in-function-body"]++
+		return Call("let", V(S("tag"), Call("fn", V(S("x")), Call("conj", types.Set{Val: map[string]struct{}{}}, S("x")))), Call("list", Call("tag", K("first")), Call("tag", K("second")), Call("tag", key)))
 	case 0:
 		g.hist["literal-vector"]++
 		n := []int{3, 5, 9}[g.r.Intn(3)]
